@@ -1049,6 +1049,98 @@ fn corr_validator(out: &mut Out, c: &Case, rng: &mut Rng) {
 }
 
 // ------------------------------------------------------------------------------------------
+// api_trait_twin: fit / predict through `smartcore::api::{SupervisedEstimator, Predictor}` give exactly
+// what the inherent methods give (training matrix and new rows, model fitted either way, every solver)
+// ------------------------------------------------------------------------------------------
+fn twin_run<T: RealNumber + serde::Serialize>(c: &Case, sol: Sol) -> Option<twin::Diff> {
+    let xm: DenseMatrix<T> = mat(&c.x);
+    let xn: DenseMatrix<T> = mat(&c.xnew);
+    let yv: Vec<T> = vect(&c.y);
+    let probes = [("the training matrix", &xm), ("the new rows", &xn)];
+    macro_rules! run {
+        ($ty:ty, $p:expr) => {{
+            let p = $p;
+            twin::check(
+                "SupervisedEstimator",
+                "Predictor",
+                "predict",
+                || twin::fit_sup::<$ty, _, _, _>(&xm, &yv, p.clone()),
+                || <$ty>::fit(&xm, &yv, p.clone()),
+                |m: &$ty, z: &DenseMatrix<T>| twin::predict(m, z),
+                |m: &$ty, z: &DenseMatrix<T>| m.predict(z),
+                &probes,
+                |m: &$ty| serde_json::to_string(m).unwrap_or_default(),
+                true,
+            )
+        }};
+    }
+    if c.ridge {
+        run!(
+            RidgeRegression<T, DenseMatrix<T>>,
+            RidgeRegressionParameters::default().with_alpha(t::<T>(c.alpha)).with_normalize(c.normalize).with_solver(match sol {
+                Sol::Chol => RidgeRegressionSolverName::Cholesky,
+                _ => RidgeRegressionSolverName::SVD,
+            })
+        )
+    } else {
+        run!(
+            LinearRegression<T, DenseMatrix<T>>,
+            LinearRegressionParameters::default().with_solver(match sol {
+                Sol::QR => LinearRegressionSolverName::QR,
+                _ => LinearRegressionSolverName::SVD,
+            })
+        )
+    }
+}
+fn twin_case(c: &Case) -> Option<(Sol, twin::Diff)> {
+    if c.x.is_empty() || c.x[0].is_empty() || c.xnew.is_empty() {
+        return None;
+    }
+    let sols = if c.ridge { [Sol::Chol, Sol::SVD] } else { [Sol::QR, Sol::SVD] };
+    for sol in sols.iter() {
+        let d = if c.f32m { twin_run::<f32>(c, *sol) } else { twin_run::<f64>(c, *sol) };
+        if let Some(d) = d {
+            return Some((*sol, d));
+        }
+    }
+    None
+}
+fn check_twin(out: &mut Out, c: &Case) {
+    out.eval(c.key() ^ 0x7717, c.x[0].len() >= 2);
+    out.count(&format!("twin:{}:{}", if c.ridge { if c.normalize { "ridge-normalized" } else { "ridge-raw" } } else { "ols" }, if c.f32m { "f32" } else { "f64" }));
+    if twin_case(c).is_none() {
+        return;
+    }
+    // shrink: fewer new rows, fewer training rows
+    let mut cur = c.clone();
+    let mut progress = true;
+    while progress {
+        progress = false;
+        let mut i = 0;
+        while cur.xnew.len() > 1 && i < cur.xnew.len() {
+            let mut t = cur.clone();
+            t.xnew.remove(i);
+            if twin_case(&t).is_some() { cur = t; progress = true; } else { i += 1; }
+        }
+        let mut i = 0;
+        while cur.x.len() > 2 && i < cur.x.len() {
+            let mut t = cur.clone();
+            t.x.remove(i);
+            t.y.remove(i);
+            if twin_case(&t).is_some() { cur = t; progress = true; } else { i += 1; }
+        }
+    }
+    if let Some((sol, d)) = twin_case(&cur) {
+        let mut w = cur.to_json();
+        w["oracle"] = json!(twin::ORACLE);
+        w["solver"] = json!(sol.name());
+        w["differing_call"] = json!(d.call);
+        out.count(&format!("twin:failing:{}", if c.ridge { "RidgeRegression" } else { "LinearRegression" }));
+        out.fail(twin::ORACLE, &format!("{} (solver {}): {}: {}", if c.ridge { "RidgeRegression" } else { "LinearRegression" }, sol.name(), d.call, d.what), w);
+    }
+}
+
+// ------------------------------------------------------------------------------------------
 fn replay(path: &str) -> i32 {
     let v = read_replay(path);
     let inp = if v.get("input").is_some() { v["input"].clone() } else { v.clone() };
@@ -1062,6 +1154,10 @@ fn replay(path: &str) -> i32 {
                 return 2;
             }
             check_case(&mut out, &c, &mut st);
+            if let Some((sol, d)) = twin_case(&c) {
+                println!("  {}: solver {}: {}: {}", twin::ORACLE, sol.name(), d.call, d.what);
+                out.fail(twin::ORACLE, &d.what, json!({}));
+            }
         }
         _ => {
             eprintln!("replay entry without a search oracle (correspondence-only input)");
@@ -1109,7 +1205,7 @@ fn main() {
     let mut rng = Rng::new(a.seed);
     let mut out = Out::new(
         "C07",
-        "search case = (model, X, y[, alpha, normalize], float width): both solvers are fitted, every clause of the property is evaluated on the returned coefficients; non-trivial: p >= 2, n >= p + 2, cond(X) >= 10; distinct by hash of (X, y, alpha, settings)",
+        "search case = (model, X, y[, alpha, normalize], float width): both solvers are fitted, every clause of the property is evaluated on the returned coefficients; non-trivial: p >= 2, n >= p + 2, cond(X) >= 10; distinct by hash of (X, y, alpha, settings). api-trait twin case = a search case fitted and queried through smartcore::api::{SupervisedEstimator, Predictor} and through the inherent methods (both solvers); all results must coincide bit for bit",
     );
     let mut st = Stats::new();
 
@@ -1317,6 +1413,11 @@ fn main() {
             out.sample(json!({"family": c.family, "n": n, "p": p, "cond": cond, "alpha": c.alpha, "normalize": c.normalize, "x_row0": c.x[0], "y0": c.y[0]}));
         }
         check_case(&mut out, &c, &mut st);
+    }
+    // ---- api-trait twins (last: the streams of the sections above are unchanged) ----
+    for i in 0..(if a.thorough { 600 } else { 80 }) {
+        let (c, _) = gen_case(&mut rng, i % 2 == 0, 40, 6, i % 5 == 4, &mut out);
+        check_twin(&mut out, &c);
     }
     out.set("max_ratio_over_tolerance_scale", json!(st.max_ratio));
     if std::env::var("C07_CALIBRATE").is_ok() {
